@@ -85,7 +85,8 @@ FIELDS = z3.Function("FIELDS", S, SL)
 FH = z3.Function("FH", S, S, H)
 HASDEF = z3.Function("HASDEF", S, S, B)
 DEFAULT = z3.Function("DEFAULT", S, S, V)
-STROF = z3.Function("STROF", V, S)         # payload of a marker that is not a str: unspecified
+STROFX = z3.Function("STROFX", V, S)       # payload of a marker that is not a str: unspecified
+STROF = RecFunction("STROF", V, S)
 
 _v, _l, _k, _b, _h, _s, _n = z3.Const("v", V), z3.Const("l", VL), z3.Const("k", KV), z3.Bool("b"), z3.Const("h", H), z3.String("s"), z3.Const("n", SL)
 
@@ -101,6 +102,8 @@ def ite(*pairs_and_default):
 def one(key, val):
     return KV.kcons(sv(key) if isinstance(key, str) else key, val, KV.knil)
 
+
+RecAddDefinition(STROF, [_v], z3.If(V.is_Str(_v), V.s(_v), STROFX(_v)))
 
 # ------------------------------------------------------------- mapping helpers --
 HASKEY = RecFunction("HASKEY", KV, S, B)
